@@ -441,6 +441,10 @@ func c13Reference(c *Ctx, bands *tables.Bands, cfg *tables.BandConfig, fam regBa
 		want := fam.DataRates[ks]
 		got, ok := byIdx[k]
 		if !ok {
+			if want.IfDefined {
+				r.OK("R5.reference", fmt.Sprintf("%s/dataRates/DR%d", id, k), pos, fmt.Sprintf("DR%d, where defined, as %+v", k, want), "not defined by this band (allowed: later revisions only)", false)
+				continue
+			}
 			r.Bad("R5.reference", fmt.Sprintf("%s/dataRates/DR%d", id, k), pos, fmt.Sprintf("DR%d defined as %+v", k, want), "missing")
 			continue
 		}
